@@ -19,7 +19,12 @@ VERIF_ROOT = os.path.dirname(os.path.dirname(os.path.abspath(__file__)))
 REPO = os.path.abspath(os.environ.get("VERIF_REPO", "/repo"))
 VARIANT = os.environ.get("VERIF_VARIANT", "plain")
 BUILD = os.path.abspath(os.environ.get("VERIF_BUILD", os.path.join(VERIF_ROOT, ".build")))
-LIBDIR = os.path.join(BUILD, VARIANT)
+_real = os.path.realpath(REPO)
+if _real == "/repo":
+    LIBDIR = os.path.join(BUILD, VARIANT)
+else:
+    import hashlib as _hl
+    LIBDIR = os.path.join(BUILD, "alt_" + _hl.sha1(_real.encode()).hexdigest()[:10], VARIANT)
 
 if REPO not in sys.path[:1]:
     sys.path.insert(0, REPO)
